@@ -435,6 +435,16 @@ func c06ModelFree(numaRes []NUMANodeResource, live []*PodAllocation) map[int]cor
 	return free
 }
 
+// c06WholeCPUsFree: the whole CPUs the hinted NUMA nodes have left according to the live pods' bookings.
+func c06WholeCPUsFree(free map[int]corev1.ResourceList, hint []int) int {
+	n := 0
+	for _, h := range hint {
+		q := free[h][corev1.ResourceCPU]
+		n += int(q.MilliValue() / 1000)
+	}
+	return n
+}
+
 // c06DivisibleEnough: every requested resource that some NUMA node reports has enough free over the hinted nodes.
 func c06DivisibleEnough(reqs corev1.ResourceList, free map[int]corev1.ResourceList, hint []int) bool {
 	for name, q := range reqs {
@@ -458,9 +468,39 @@ func c06DivisibleEnough(reqs corev1.ResourceList, free map[int]corev1.ResourceLi
 	return true
 }
 
+// c06CheckCPUSetResult applies the result clauses of a successful cpuset Allocate: exact count, only CPUs that were free
+// for the pod, a required policy that is reported satisfied really is, and a sound NUMA split.
+func c06CheckCPUSetResult(c *kit.Case, tp c06Topo, where string, ncpu int, bind schedulingconfig.CPUBindPolicy, required bool, reqs corev1.ResourceList,
+	alloc *PodAllocation, availBefore cpuset.CPUSet, frees []map[int]corev1.ResourceList, hintBits []int) {
+	topo := tp.topo
+	if alloc.CPUSet.Size() != ncpu {
+		c.Fail("C06/allocate/wrong-count", "%s: Allocate succeeded with cpuset %s (%d CPUs), requested %d", where, alloc.CPUSet.String(), alloc.CPUSet.Size(), ncpu)
+	}
+	if !alloc.CPUSet.IsSubsetOf(availBefore) {
+		c.Fail("C06/allocate/not-free", "%s: Allocate returned %s, CPUs free for this pod were %s", where, alloc.CPUSet.String(), availBefore.String())
+	}
+	if required && bind == schedulingconfig.CPUBindPolicyFullPCPUs && !c06FullCores(topo, alloc.CPUSet) {
+		if tp.regular() {
+			c.Fail("C06/allocate/fullpcpus-not-satisfied", "%s: required FullPCPUs reported satisfied but %s does not consist of whole cores", where, alloc.CPUSet.String())
+		}
+		c.Count("irregular_topology_policy_mismatch", 1)
+	}
+	if required && bind == schedulingconfig.CPUBindPolicySpreadByPCPUs && !c06OnePerCore(topo, alloc.CPUSet) {
+		if tp.regular() {
+			c.Fail("C06/allocate/spread-not-satisfied", "%s: required SpreadByPCPUs reported satisfied but %s has two CPUs of one core", where, alloc.CPUSet.String())
+		}
+		c.Count("irregular_topology_policy_mismatch", 1)
+	}
+	if len(hintBits) > 0 {
+		for _, free := range frees {
+			c06CheckSplit(c, where, reqs, free, hintBits, alloc.NUMANodeResources)
+		}
+	}
+}
+
 func TestVerifC06Ledger(t *testing.T) {
-	kit.Run(t, kit.Config{Property: "C06", Unit: "ledger", Quick: 340, Thorough: 12000,
-		Rule: "histories of 50-300 allocate(+commit)/re-allocate/release/double-release/release-unknown operations over 3-10 pods on one node of a real resourceManager, random topology (all dimensions of c06GenTopo incl. NUMA ids with holes), maxRefCount 1-4, reserved CPUs (scattered/whole cores/whole NUMA node/lowest ids), per-NUMA cpu+memory(+hugepages on some nodes), NUMA strategy from the manager default or the node label, cpuset requests (any size incl. not a multiple of the threads per core, preferred or required policy) and 20% NUMA-amount-only requests (milli-CPU, memory, hugepages), NUMA hints over random subsets of the real node ids; oracle after every step; distinct = (topology class, maxRef, op, policy, outcome, live pods); non-trivial = case in which an allocation was refused for lack of CPUs and a later one succeeded after a release"},
+	kit.Run(t, kit.Config{Property: "C06", Unit: "ledger", Quick: 310, Thorough: 12000,
+		Rule: "histories of 50-300 allocate(+commit)/re-allocate/release/double-release/release-unknown operations over 3-10 pods on one node of a real resourceManager, random topology (all dimensions of c06GenTopo incl. NUMA ids with holes), maxRefCount 1-4, reserved CPUs (scattered/whole cores/whole NUMA node/lowest ids), per-NUMA cpu+memory(+hugepages on some nodes), NUMA strategy from the manager default or the node label, cpuset requests (any size incl. not a multiple of the threads per core, 20% exactly the whole CPUs the hinted NUMA nodes have left; preferred or required policy) and per history 0/20/40% NUMA-amount-only requests (whole or fractional milli-CPU, memory, hugepages), NUMA hints over random subsets of the real node ids; 25% of the histories start with shared-pool pods that leave 1-6 whole CPUs per NUMA node; 35% of the allocate steps are preceded by three evaluation-only Allocate calls (required FullPCPUs/SpreadByPCPUs over >= 2 hinted NUMA nodes, sized at or just below what they have left); oracle after every step; distinct = (topology class, maxRef, op, policy, outcome, live pods); non-trivial = case in which an allocation was refused for lack of CPUs and a later one succeeded after a release"},
 		func(c *kit.Case) {
 			r := c.R
 			tp := c06GenTopo(r)
@@ -494,6 +534,8 @@ func TestVerifC06Ledger(t *testing.T) {
 				pods[i] = &c06Pod{uid: types.UID(fmt.Sprintf("pod-%d", i))}
 			}
 			nops := r.Range(50, 300)
+			// share of pods without cpu binding in this history: none (pure cpuset node), some, many
+			numaOnlyPct := kit.Pick(r, []int{0, 0, 20, 20, 40})
 			refusedOnce, okAfterRefuse := false, false
 			check := func(where string) {
 				na := rm.GetNodeAllocation(nodeName)
@@ -578,17 +620,46 @@ func TestVerifC06Ledger(t *testing.T) {
 				}
 				c.Count("ledger_checks", 1)
 			}
+			// 25%: the node starts nearly full at the NUMA level: shared-pool pods (no cpu binding, placed with a NUMA
+			// policy) have consumed all but 1-6 whole CPUs of every NUMA node while no cpuset is taken yet. They are booked
+			// through the real Allocate+Update and take part in the history like every other pod.
+			if r.Pct(25) {
+				for _, nr := range numaRes {
+					capQ := nr.Resources[corev1.ResourceCPU]
+					left := int64(r.Range(1, 6)) * 1000
+					if capQ.MilliValue() <= left {
+						continue
+					}
+					sp := &c06Pod{uid: types.UID(fmt.Sprintf("shared-%d", nr.Node))}
+					m, _ := bitmask.NewBitMask(nr.Node)
+					reqs := corev1.ResourceList{corev1.ResourceCPU: *resource.NewMilliQuantity(capQ.MilliValue()-left, resource.DecimalSI)}
+					opts := &ResourceOptions{requests: reqs.DeepCopy(), originalRequests: reqs.DeepCopy(), topologyOptions: tom.GetTopologyOptions(nodeName),
+						hint: topologymanager.NUMATopologyHint{NUMANodeAffinity: m}}
+					alloc, status := rm.Allocate(node, &corev1.Pod{ObjectMeta: metav1.ObjectMeta{UID: sp.uid, Name: string(sp.uid), Namespace: "default"}}, opts)
+					c.Op("prefill %s reqs=%s hint=[%d] -> ok=%v %s", sp.uid, c06RL(reqs), nr.Node, status.IsSuccess(), c06AllocStr(alloc))
+					if !status.IsSuccess() {
+						c.Fail("C06/numa-split/incomplete", "Allocate of a pod without cpu binding refused (%s) on an empty node: request %s on NUMA node %d with capacity %s", status.Message(), c06RL(reqs), nr.Node, c06RL(nr.Resources))
+					}
+					c06CheckSplit(c, "prefill", reqs, c06ModelFree(numaRes, nil), []int{nr.Node}, alloc.NUMANodeResources)
+					rm.Update(nodeName, alloc)
+					sp.alloc = alloc
+					pods = append(pods, sp)
+					check("after prefill of NUMA node " + fmt.Sprint(nr.Node))
+				}
+				c.Count("ledger_histories_numa_nearly_full", 1)
+			}
 			for op := 0; op < nops; op++ {
 				p := kit.Pick(r, pods)
 				switch k := r.Weighted(55, 30, 5, 5, 5); k {
 				case 0: // allocate (for a new pod) or re-allocate (update of an existing pod) + commit
-					cpuBind := !r.Pct(20)
+					cpuBind := !r.Pct(numaOnlyPct)
 					ncpu := r.Range(1, maxInt(1, topo.NumCPUs/2))
 					if r.Pct(10) {
 						ncpu = topo.NumCPUs + 1 - reserved.Size()
 					}
+					exactFill := cpuBind && r.Pct(20) // boundary: ask for exactly what the hinted NUMA nodes have left (set below)
 					bind := kit.Pick(r, c06BindPolicies)
-					required := r.Pct(35) && (bind == schedulingconfig.CPUBindPolicyFullPCPUs || bind == schedulingconfig.CPUBindPolicySpreadByPCPUs)
+					required := r.Pct(45) && (bind == schedulingconfig.CPUBindPolicyFullPCPUs || bind == schedulingconfig.CPUBindPolicySpreadByPCPUs)
 					excl := kit.Pick(r, c06ExclPolicies)
 					mem := int64(r.Range(0, int(minI64(memPerNode, 64))))
 					var reqs corev1.ResourceList
@@ -606,7 +677,8 @@ func TestVerifC06Ledger(t *testing.T) {
 					} else {
 						// a pod without cpu binding (LS): only per-NUMA amounts, milli-CPU granularity
 						ncpu, required = 0, false
-						milli := int64(kit.Pick(r, []int{1, 250, 500, 1000, 1500, 2500, 4000, 7777}))
+						// mostly whole CPUs (shared-pool pods leave odd and even amounts), some fractional
+						milli := int64(kit.Pick(r, []int{1000, 1000, 1000, 2000, 3000, 3000, 5000, 7000, 1, 250, 500, 1500, 2500, 7777}))
 						opts = &ResourceOptions{cpuBindPolicy: bind, topologyOptions: tom.GetTopologyOptions(nodeName)}
 						reqs = corev1.ResourceList{corev1.ResourceCPU: *resource.NewMilliQuantity(milli, resource.DecimalSI)}
 					}
@@ -645,6 +717,57 @@ func TestVerifC06Ledger(t *testing.T) {
 						}
 					}
 					modelFree := c06ModelFree(numaRes, liveAllocs)
+					if exactFill && len(hintBits) > 0 {
+						if n := c06WholeCPUsFree(modelFree, hintBits); n > 0 {
+							ncpu = n
+							opts.numCPUsNeeded = n
+							reqs[corev1.ResourceCPU] = *resource.NewQuantity(int64(n), resource.DecimalSI)
+							opts.requests = reqs.DeepCopy()
+							opts.originalRequests = reqs.DeepCopy()
+							c.Count("allocate_exact_fill_of_hinted_nodes", 1)
+						}
+					}
+					// The scheduler evaluates many pods on this node that it never books here (Filter dry runs). 35% of the
+					// time, three such evaluations on the present state: a required FullPCPUs / SpreadByPCPUs request over a
+					// hint of >= 2 NUMA nodes (when there are), sized at / just below what the hinted nodes have left.
+					if r.Pct(35) {
+						for i := 0; i < 3; i++ {
+							var ph []int
+							for _, n := range tp.nodeIDs {
+								if r.Pct(70) {
+									ph = append(ph, n)
+								}
+							}
+							if len(ph) < 2 {
+								ph = append([]int(nil), tp.nodeIDs...)
+							}
+							pbind := kit.Pick(r, []schedulingconfig.CPUBindPolicy{schedulingconfig.CPUBindPolicyFullPCPUs, schedulingconfig.CPUBindPolicySpreadByPCPUs})
+							left := c06WholeCPUsFree(modelFree, ph)
+							pn := left
+							switch r.Intn(4) {
+							case 0:
+								pn = left - r.Range(1, maxInt(1, topo.CPUsPerCore()))
+							case 1:
+								pn = r.Range(1, maxInt(1, left))
+							}
+							if pn < 1 {
+								continue
+							}
+							preqs := corev1.ResourceList{corev1.ResourceCPU: *resource.NewQuantity(int64(pn), resource.DecimalSI)}
+							pm, _ := bitmask.NewBitMask(ph...)
+							popts := &ResourceOptions{numCPUsNeeded: pn, requestCPUBind: true, requiredCPUBindPolicy: true, cpuBindPolicy: pbind,
+								cpuExclusivePolicy: kit.Pick(r, c06ExclPolicies), topologyOptions: tom.GetTopologyOptions(nodeName),
+								requests: preqs.DeepCopy(), originalRequests: preqs.DeepCopy(), hint: topologymanager.NUMATopologyHint{NUMANodeAffinity: pm}}
+							palloc, pstatus := rm.Allocate(node, &corev1.Pod{ObjectMeta: metav1.ObjectMeta{UID: "probe", Name: "probe", Namespace: "default"}}, popts)
+							c.Count("ledger_required_policy_probes", 1)
+							if pstatus.IsSuccess() {
+								c.Count("ledger_required_policy_probes_ok", 1)
+								where := fmt.Sprintf("evaluation only: cpus=%d required %s hint=%v -> %s", pn, pbind, ph, c06AllocStr(palloc))
+								c.Op("%s", where)
+								c06CheckCPUSetResult(c, tp, where, pn, pbind, true, preqs, palloc, availBefore, []map[int]corev1.ResourceList{freeBefore, modelFree}, ph)
+							}
+						}
+					}
 					alloc, status := rm.Allocate(node, pod, opts)
 					c.Op("allocate %s cpuBind=%v cpus=%d reqs=%s bind=%s required=%v excl=%s hint=%v (existing=%v) -> ok=%v %s", p.uid, cpuBind, ncpu, c06RL(reqs), bind, required, excl, hintBits, p.alloc != nil, status.IsSuccess(), c06AllocStr(alloc))
 					c.Seen(tp.Class(), maxRef, "alloc", cpuBind, bind, required, excl, len(hintBits), status.IsSuccess(), c06Live(pods))
